@@ -42,6 +42,35 @@ def runOps : Bytes → List ROp → List (RVal × Nat) × Option Fault
       let (vs, f) := runOps r ops
       ((v, r.length) :: vs, f)
 
+/-- reader operations with sub-readers that are *used*: `push n` carves a sub-reader of `n` octets and goes on
+    inside it while the parent waits, `pop` returns to the parent (at the position behind the carved range). -/
+inductive NOp
+  | op (o : ROp) | push (n : Nat) | pop
+  deriving Repr, DecidableEq
+
+/-- run a nested sequence: current reader, waiting parents; stops at the first fault.  Each step reports the
+    value and the number of octets the *current* reader has left. -/
+def runNested : Bytes → List Bytes → List NOp → List (RVal × Nat) × Option Fault
+  | _, _, [] => ([], none)
+  | cur, st, .op o :: ops =>
+    match o.run cur with
+    | .error f => ([], some f)
+    | .ok (v, r) =>
+      let (vs, f) := runNested r st ops
+      ((v, r.length) :: vs, f)
+  | cur, st, .push n :: ops =>
+    match Rdr.sub cur n with
+    | .error f => ([], some f)
+    | .ok (b, r) =>
+      let (vs, f) := runNested b (r :: st) ops
+      ((.unit, b.length) :: vs, f)
+  | _, p :: st, .pop :: ops =>
+    let (vs, f) := runNested p st ops
+    ((.unit, p.length) :: vs, f)
+  | cur, [], .pop :: ops =>
+    let (vs, f) := runNested cur [] ops
+    ((.unit, cur.length) :: vs, f)
+
 inductive WOp
   | bytes (b : Bytes) | u8 (v : UInt8) | u16 (v : UInt16) | u32 (v : UInt32) | u64 (v : UInt64)
   | at (off : Nat) (b : Bytes)
